@@ -1,8 +1,6 @@
 CONSTANTS
-  SkSet <- QuickSkeletons
-  Alpha = "full"
+  Families <- QuickFamilies
   InputSet <- QuickInputs
-  Chain = TRUE
 SPECIFICATION Spec
 INVARIANT WellFormed
 INVARIANT NoRuntimeError
